@@ -442,11 +442,11 @@ def get_results(tier):
 
 # ------------------------------------------------------------------ replay against the real crate
 REPLAY = os.path.join(BUILD, "replay-target", "release", "replay")
-SCENARIOS = {"take": ["take1", "take2", "take0", "take2L"], "map": ["map", "mapL"], "filter": ["filter"], "scan": ["scan"], "skip": ["skip1"], "from_iter": ["from_iter"],
-             "concat": ["concat2", "concat3"], "concat0": ["concat0"], "flatten": ["flatten"], "merge": ["merge2", "merge3", "merge2X", "merge2L"], "merge_L": ["merge2L", "merge2"],
+SCENARIOS = {"take": ["take1", "take2", "take0", "take2L", "take2R"], "map": ["map", "mapL", "mapR"], "filter": ["filter", "filterR"], "scan": ["scan", "scanR"], "skip": ["skip1", "skip1R"], "from_iter": ["from_iter", "from_iterR"],
+             "concat": ["concat2", "concat3", "concat2R"], "concat0": ["concat0"], "flatten": ["flatten"], "merge": ["merge2", "merge3", "merge2X", "merge2L", "merge2R"], "merge_L": ["merge2L", "merge2"],
              "combine1": ["combine2"], "combine2": ["combine2", "combine2X"], "combine3": ["combine2", "combine2X"], "share": ["share2", "share3"]}
 # scenarios in which the puppet sources are pullable (one answer per Pull) and the sink pulls only with none outstanding
-PULL_SCENARIOS = {"take": ["take2P"], "map": ["mapP"], "filter": ["filterP"], "scan": ["scanP"], "skip": ["skip1P"], "from_iter": ["from_iterP"], "concat": ["concat2P", "concat3P"], "flatten": ["flattenP"]}
+PULL_SCENARIOS = {"take": ["take2P", "take2PR"], "map": ["mapP", "mapPR"], "filter": ["filterP", "filterPR"], "scan": ["scanP", "scanPR"], "skip": ["skip1P", "skip1PR"], "from_iter": ["from_iterP"], "concat": ["concat2P", "concat3P"], "flatten": ["flattenP"]}
 
 
 def build_replay():
@@ -536,7 +536,7 @@ def replay_search(template, pid, secs=900):
     # histories of listed findings are not new violations
     excl = []
     for f in load_findings().get("findings", []):
-        if f.get("replay") and f["replay"]["scenario"].rstrip("LX") in [x.rstrip("LX") for x in SCENARIOS.get(template, [])] and f.get("property") == pid:
+        if f.get("replay") and f["replay"]["scenario"].rstrip("LXPR") in [x.rstrip("LXPR") for x in SCENARIOS.get(template, [])] and f.get("property") == pid:
             for x in f.get("excludes", [f["replay"]["expect"]]):
                 excl += ["--exclude", x]
     scs = list(SCENARIOS.get(template, []))
